@@ -85,6 +85,7 @@ type Store struct {
 	statsdClient         statsd.ClientInterface // datadog metrics
 	idseq                *badger.Sequence       // sequence used for assigning ids to uris
 	idtxn                *badger.Txn            // rolling txn for ids
+	idowner              *Store                 // the store whose rolling id txn a contextual store shares (nil: its own)
 	idmux                sync.Locker
 	fullsyncLeaseTimeout time.Duration
 	blockCacheSize       int64
@@ -110,7 +111,7 @@ func NewContextualStore(store *Store) *Store {
 		logger:               store.logger.Named("contextual-store"),
 		statsdClient:         store.statsdClient,
 		idseq:                store.idseq,
-		idtxn:                store.idtxn,
+		idowner:              store.idTxnOwner(),
 		idmux:                store.idmux,
 		fullsyncLeaseTimeout: store.fullsyncLeaseTimeout,
 		blockCacheSize:       store.blockCacheSize,
@@ -1390,20 +1391,30 @@ func (s *Store) getIDForURI(txn *badger.Txn, uri string) (uint64, bool, error) {
 	return rid, exists, nil
 }
 
+// idTxnOwner returns the store that holds the rolling id transaction. There is one per database:
+// a contextual store uses the one of the store it was made from (they share idmux and idseq as well).
+func (s *Store) idTxnOwner() *Store {
+	if s.idowner != nil {
+		return s.idowner
+	}
+	return s
+}
+
 func (s *Store) commitIDTxn() error {
 	s.idmux.Lock()
 	defer s.idmux.Unlock()
 
-	if s.idtxn == nil {
+	o := s.idTxnOwner()
+	if o.idtxn == nil {
 		// nothing to commit
 		return nil
 	}
 
-	err := s.idtxn.Commit()
+	err := o.idtxn.Commit()
 	if err != nil {
 		return err
 	}
-	s.idtxn = nil
+	o.idtxn = nil
 	return nil
 }
 
@@ -1452,8 +1463,9 @@ func (s *Store) assertIDForURI(uri string, localTxnCache map[string]uint64) (uin
 	s.idmux.Lock()
 	defer s.idmux.Unlock()
 
-	if s.idtxn == nil {
-		s.idtxn = s.database.NewTransaction(true)
+	o := s.idTxnOwner()
+	if o.idtxn == nil {
+		o.idtxn = s.database.NewTransaction(true)
 	}
 
 	// check if it exists already uri => id
@@ -1462,7 +1474,7 @@ func (s *Store) assertIDForURI(uri string, localTxnCache map[string]uint64) (uin
 	binary.BigEndian.PutUint16(uribuf, URIToIDIndexID)
 	copy(uribuf[2:], uriAsBytes)
 
-	item, err := s.idtxn.Get(uribuf)
+	item, err := o.idtxn.Get(uribuf)
 	if err != nil {
 		if err == badger.ErrKeyNotFound {
 
@@ -1470,7 +1482,7 @@ func (s *Store) assertIDForURI(uri string, localTxnCache map[string]uint64) (uin
 			rid, _ = s.idseq.Next()
 			binary.BigEndian.PutUint64(seqbuf, rid)
 
-			err := s.idtxn.Set(uribuf, seqbuf)
+			err := o.idtxn.Set(uribuf, seqbuf)
 			if err != nil {
 				return 0, false, err
 			}
@@ -1483,7 +1495,7 @@ func (s *Store) assertIDForURI(uri string, localTxnCache map[string]uint64) (uin
 			binary.BigEndian.PutUint16(invseqbuf, IDToURIIndexID)
 			binary.BigEndian.PutUint64(invseqbuf[2:], rid)
 
-			err = s.idtxn.Set(invseqbuf, invuribuf)
+			err = o.idtxn.Set(invseqbuf, invuribuf)
 			if err != nil {
 				return 0, false, err
 			}
